@@ -36,13 +36,12 @@ MANIFEST = dict(
           "without bound: reduce_deg gives |r| < 360, x = r + 360k, keeps the sign and is the identity on (-360, 360); "
           "dms2deg of any three rational pieces is in (-360, 360) and congruent to sigma(|d|+|m|/60+|s|/3600) with "
           "sigma = -1 iff a piece is negative; every constructor shape (number, 1/2/3/>=4 pieces as tuple, list or "
-          "separate arguments, copy, ra=) reduces to reduce_deg/dms2deg of the intended value; each of + - * / % "
+          "separate arguments, copy) reduces to reduce_deg/dms2deg of the intended value and ra= to reduce_deg(15 * that value); each of + - * / % "
           "** (int exponent), unary -, abs, round, in plain, reflected and in-place form and for Angle/int/float operands, "
           "returns reduce_deg of the exact result (hence in range and congruent), division/modulo by zero gives "
           "ZeroDivisionError; to_positive maps (-360, 360) into [0, 360) congruently; get_ra = deg/15; over the reals "
           "(AngleR) radians input is reduce_deg(x*180/pi), rad() = deg*pi/180 and ** with a float/Angle exponent on a "
-          "positive base is Angle(real power). Two clauses are false of the code and have proved counterexamples "
-          "(ctor_ra_counterexample, rmod_counterexample) next to the partial theorems. The model is tied to /repo by "
+          "positive base is Angle(real power). The model is tied to /repo by "
           "running its binary64 instantiation against CPython bit for bit and its exact instantiation within the "
           "property's tolerance modulo 360; the clauses are evaluated on the implementation with an exact-rational "
           "oracle over boundary-heavy inputs (multiples of 360, +-ulp at 0 and +-360, denormals, -0.0, up to 1e15). "
@@ -52,10 +51,9 @@ MANIFEST = dict(
     note=("Trusted: Lean kernel, Mathlib, axioms propext/Classical.choice/Quot.sound; the hand-written model "
           "(lean/templates/Angle.lean, AngleR.lean) and its correspondence run; the mapping from a Python call to its "
           "argument shape (harness); int arguments below 2**53 enter the model as the equal float; idealisation "
-          "binary64 -> Rat/Real modelled, not verified. Known findings (findings.d/C03.json): ra= input is not reduced "
-          "(|h| >= 24 leaves (-360, 360)); number % Angle reduces the number modulo 360 first; dms2deg's binary64 sum "
-          "rounds up to +-360.0 for sexagesimal input within 1e-10 arcsec of a whole turn (a float-only effect: the "
-          "exact model is proved in range)."),
+          "binary64 -> Rat/Real modelled, not verified. Three defects found by this check were repaired in /repo "
+          "(0a81589 ra= input reduced after *15; 05d4048 dms2deg never returns +-360.0; a256a98 number % Angle uses "
+          "the number itself); the model follows the repaired code."),
     technique="Lean 4 proof (floor/mod algebra over Rat, Real for pi) + model/implementation correspondence check",
     ref='6 C03')
 
@@ -198,6 +196,11 @@ def gen_pieces(rng):
     n = rng.choice([2, 3, 3, 3, 4, 5])
     p = [gen_piece(rng, 400), gen_piece(rng, 70), gen_piece(rng, 70), rng.choice([1, -1, 1.0, -1.0, 0, -0.0, 7, -3.5]), 9][:n]
     r = rng.random()
+    if rng.random() < 0.05:
+        # just below a whole turn: the binary64 sum rounds up to 360.0 (repaired by 05d4048)
+        p[:3] = [360 * rng.randint(0, 3) + 359, 59, 60 - 10.0 ** -rng.uniform(8, 15)][:max(2, min(3, n))]
+        if n == 2:
+            p[1] = 60 - 10.0 ** -rng.uniform(10, 15)
     if r < 0.2:
         p[0] = 0 if rng.random() < 0.5 else 0.0          # (0, -m, s)
         p[1] = -abs(p[1])
@@ -728,9 +731,6 @@ def gen_op_spec(rng, hot):
         a = rng.choice([0.0, -0.0])
     if base == 'mod' and rng.random() < 0.3:
         b = rng.choice([1, 60, 360, 90, -50, 7]) if bk == 'int' else rng.choice([1.0, 60.0, 360.0, 0.1, -50.0, 7.5, 1e-3]) if bk == 'flt' else rng.choice([1.0, 60.0, 90.0, -50.0, 0.1])
-    if name == 'rmod' and bk != 'ang' and abs(b) >= 360 and rng.random() < 0.99:
-        # |number| >= 360 is the listed finding C03-rmod-reduces-left-operand: sampled rarely
-        b = rng.randint(-359, 359) if bk == 'int' else rng.uniform(-360.0, 360.0)
     if hot and rng.random() < 0.05 and bk != 'ang':
         b = rng.choice(hot)
         bk = 'int' if isinstance(b, int) else 'flt'
@@ -754,9 +754,8 @@ def gen_specs(ctx, count):
                 kind = rng.choice(['num', 'num', 'seq_t', 'seq_l'])
                 yield ['ctor', kind, x if kind == 'num' else [x], 'rad', rng.choice(['new', 'set', 'set_radians']) if kind == 'num' else 'new']
             else:
-                # |h| >= 24 is the listed finding C03-ra-not-reduced: sampled, but rarely, so that it cannot crowd out others
-                h = x if rng.random() < 0.004 else rng.choice([rng.uniform(-24, 24), step(24.0, -1), step(-24.0, 1), rng.randint(-23, 23),
-                                                              gen_angle_value(rng) / 15.0])
+                h = x if rng.random() < 0.4 else rng.choice([rng.uniform(-24, 24), step(24.0, -1), step(-24.0, 1), rng.randint(-23, 23),
+                                                            gen_angle_value(rng) / 15.0, 24, 24.0, -24, 48.0, step(24.0, 1)])
                 yield ['ctor', 'num', h, 'ra', rng.choice(['new', 'set', 'set_ra'])]
         elif r < 0.40:
             p = gen_pieces(rng)
@@ -764,9 +763,9 @@ def gen_specs(ctx, count):
             if k < 0.45:
                 yield ['ctor', rng.choice(['args', 'seq_t', 'seq_l']), p, rng.choice(['', '', '', 'rad']), rng.choice(['new', 'new', 'set'])]
             elif k < 0.6:
-                if rng.random() < 0.994:
-                    p = [rng.choice([rng.randint(0, 23), rng.uniform(0, 23)]), rng.choice([rng.randint(0, 59), rng.uniform(0, 59)]),
-                         rng.choice([rng.randint(0, 59), rng.uniform(0, 59.9)])][:max(2, min(3, len(p)))]
+                if rng.random() < 0.5:
+                    p = [rng.choice([rng.randint(0, 23), rng.uniform(0, 23), 23, 24]), rng.choice([rng.randint(0, 59), rng.uniform(0, 59), 59, 60]),
+                         rng.choice([rng.randint(0, 59), rng.uniform(0, 59.9), 59.99999999999999, 60])][:max(2, min(3, len(p)))]
                     if rng.random() < 0.4:
                         i = rng.randrange(len(p)); p[i] = -p[i]
                 yield ['ctor', rng.choice(['args', 'seq_t', 'seq_l']), p, 'ra', rng.choice(['new', 'set_ra'])]
@@ -802,6 +801,83 @@ def gen_specs(ctx, count):
             yield ['view', gen_angle_value(rng)]
 
 
+VA = [-359.99999999999994, -359.5, -180.0, -90.0, -50.0, -1.0, -1e-10, -1e-11, -2.8e-14, -1e-20, -5e-324, -0.0, 0.0,
+      5e-324, 1e-20, 2.8e-14, 1e-11, 1e-10, 0.5, 1.0, 2.0, 3.0, 15.0, 50.0, 90.0, 180.0, 359.5, 359.99999999999994]
+GI = [-BIG, -1000, -725, -721, -720, -361, -360, -359, -60, -2, -1, 0, 1, 2, 3, 24, 59, 60, 359, 360, 361, 720, 725, 1000, BIG]
+GF = VA + [360.0, -360.0, 360.00000000000006, -360.00000000000006, 725.5, -725.5, 1e15, -1e15, 1e-3, 7.5, 24.0,
+           23.999999999999996, 1080.0, 719.9999999999999]
+
+
+def grid_specs(ctx):
+    """Systematic cross products of boundary values: every operator x operand kind x value pair, every
+    constructor form on every integer of three turns and on +-ulp around the multiples of 360, every
+    sexagesimal combination of boundary pieces.  Used in the thorough tier and whenever the source of a
+    modelled function differs from the golden fingerprint (ctx.scale > 1)."""
+    hot = [v for v in (ctx.hot['ints'] + ctx.hot['floats']) if isinstance(v, (int, float)) and abs(v) <= BIG]
+    hotn = []
+    for v in hot:
+        hotn += [v, -v, float(v), step(float(v), 1), step(float(v), -1)]
+    for name in OPS_ALL:
+        base = name if name in PLAIN else name[1:]
+        for a in VA:
+            if base == 'pow':
+                for n in range(-4, 7):
+                    yield ['op', name, a, 'int', n]
+                for y in (0.5, -0.5, 2.0, 0.0, 1.5):
+                    yield ['op', name, a, 'flt', y]
+                    yield ['op', name, a, 'ang', y]
+                continue
+            for b in VA:
+                yield ['op', name, a, 'ang', b]
+            for b in GI + [x for x in hotn if isinstance(x, int)]:
+                yield ['op', name, a, 'int', b]
+            for b in GF + [x for x in hotn if isinstance(x, float)]:
+                yield ['op', name, a, 'flt', b]
+    nums = list(range(-1100, 1101)) + [float(i) / 4 for i in range(-4400, 4401, 3)] + hotn
+    for k in range(-4, 5):
+        for u in (-2, -1, 0, 1, 2):
+            nums.append(step(360.0 * k, u))
+    for k in (10 ** 6, 10 ** 9, 10 ** 12, 2777777777777):
+        nums += [360 * k, -360 * k, 360.0 * k, step(360.0 * k, 1), step(360.0 * k, -1), 360 * k + 1, 360 * k - 1]
+    for x in nums:
+        yield ['static', 'reduce_deg', [x]]
+        yield ['ctor', 'num', x, '', 'new']
+        yield ['ctor', 'num', x, 'ra', 'new']
+        yield ['ctor', 'num', x, 'rad', 'new']
+        yield ['ctor', 'seq_l', [x], '', 'set']
+        yield ['ctor', 'seq_t', [x], 'rad', 'new']
+        yield ['ctor', 'num', x, 'ra', 'set_ra']
+    D = [0, 1, 23, 24, 359, 360, 361, -1, -359, 0.5, 719, 0.0, -0.0]
+    M = [0, 1, 59, 60, 61, -1, 59.5, 59.99999999999999, 0.0, 3600]
+    S = [0, 1, 59, 60, 61, -1, 59.5, 59.99999999999999, 59.999999999999, 3600, 0.0, 1e-12]
+    for d in D:
+        for m in M:
+            yield ['ctor', 'args', [d, m], '', 'new']
+            yield ['forms', [d, m], '']
+            for s in S:
+                p = [d, m, s]
+                yield ['ctor', 'args', p, '', 'new']
+                yield ['ctor', 'seq_t', p, '', 'set']
+                yield ['ctor', 'seq_l', p, 'ra', 'new']
+                yield ['static', 'dms2deg', p]
+                yield ['forms', p, '']
+                for x in (1, -1, 0, -0.0):
+                    yield ['ctor', 'args', p + [x], '', 'new']
+    for a in VA:
+        for nm in ('neg', 'abs', 'to_positive'):
+            yield ['un', nm, a, None]
+        for n in [None] + list(range(-3, 13)):
+            yield ['un', 'round', a, n]
+        yield ['view', a]
+        for b in VA:
+            yield ['cmp', a, 'ang', b]
+            yield ['cmp', a, 'flt', b]
+        for b in GI:
+            yield ['cmp', a, 'int', b]
+        yield ['ctor', 'copy', [a, 1e-10], '', 'new']
+        yield ['ctor', 'copy', [a, 1e-6], '', 'set']
+
+
 def generate(ctx, shard=0, nshards=1):
     if shard == 0:
         for s in fixed_specs():
@@ -810,8 +886,21 @@ def generate(ctx, shard=0, nshards=1):
         ctx.sample({'call': 'Angle(725.5)()', 'expected': 5.5})
         ctx.sample({'call': 'Angle(0, -5, 30.0)()', 'expected': -0.09166666666666667})
         ctx.sample({'call': '(Angle(350) + 20)()', 'expected': 10.0})
-    n = min(ctx.n(1000000, 8000000), 10000000) // nshards      # capped: the failing-input search multiplies the scale
-    for s in gen_specs(ctx, n):
+        ctx.sample({'call': 'Angle(359, 59, 59.99999999999999)()', 'expected': '0.0 (360.0 before 05d4048)'})
+        ctx.sample({'call': 'Angle(25.5, ra=True)()', 'expected': '22.5 (382.5 before 0a81589)'})
+        ctx.sample({'call': '(725 % Angle(50))()', 'expected': '25.0 (5.0 before a256a98)'})
+    changed = ctx.scale > 1
+    if changed or ctx.tier == 'thorough':
+        # systematic enumeration (about 130 000 specs): the whole boundary grid, not a sample of it
+        for i, s in enumerate(grid_specs(ctx)):
+            if i % nshards == shard:
+                run_spec(ctx, s)
+        ctx.notes.append('boundary grid enumerated in full')
+    base = 600000 if ctx.tier != 'thorough' else 5000000
+    # the random stream is not multiplied when the source changed (the grid above is the extra effort);
+    # the failing-input search (scale >= 10) gets a larger stream, capped
+    n = base if ctx.scale <= 4 else min(int(base * ctx.scale / 4), 10000000)
+    for s in gen_specs(ctx, n // nshards):
         run_spec(ctx, s)
 
 
